@@ -64,6 +64,13 @@ def corpus(ctx):
 OK_OPS = {"sqrt"}
 
 
+def padded(ctx, rng, name, lines, n, **kw):
+    """a sample of the stream's requests again, with the operands' significands stored in more words than needed"""
+    sample = lines if len(lines) <= n else rng.sample(lines, n)
+    pl = gen.pad_lines(rng, sample)
+    return pl, ctx.stream(name + "-padded", pl, **kw)
+
+
 def done(ctx):
     o = OBL.get(ctx.pid, {})
     return ctx.finish(unproven=o.get("unproven_clauses", []), full_strength=o.get("full_strength", False))
@@ -81,6 +88,7 @@ def c01(ctx):
     ctx.stream("ties", gen.tie_products(rng, n // 8))
     ctx.stream("word-boundary", gen.word_boundary_arith(rng, tiers(ctx, 3000, 50000)))
     ctx.stream("mode-differs-from-format", gen.rm_mismatch_lines(rng, tiers(ctx, 6000, 80000)))
+    padded(ctx, rng, "rand-real", gen.rand_binary(rng, ops, tiers(ctx, 6000, 60000)) + gen.word_boundary_arith(rng, 2000), 10 ** 9)
     # operator spellings (glue): every spelling must equal *_with_rm(sem.mode)
     lines = []
     for _ in range(tiers(ctx, 3000, 30000)):
@@ -183,6 +191,7 @@ def c05(ctx):
     ctx.stream("real", gen.cmp_lines_real(rng, tiers(ctx, 20000, 300000)), nontrivial=lambda t: True)
     ctx.stream("word-prefix", gen.word_prefix_cmp_lines(rng, tiers(ctx, 4000, 60000)), nontrivial=lambda t: True)
     ctx.stream("produced-values", gen.progcmp_lines(rng, tiers(ctx, 6000, 60000)), nontrivial=lambda t: True)
+    padded(ctx, rng, "real", gen.cmp_lines_real(rng, 6000) + gen.word_prefix_cmp_lines(rng, 3000), 10 ** 9, nontrivial=lambda t: True)
     return done(ctx)
 
 
@@ -194,6 +203,7 @@ def c06(ctx):
     ctx.stream("exh-small", gen.exh_cast(small), exhaustive=True)
     ctx.stream("rand-real", gen.rand_cast(rng, tiers(ctx, 30000, 500000)))
     ctx.stream("underflow-boundary", gen.underflow_boundary_casts(rng, tiers(ctx, 8000, 100000)))
+    padded(ctx, rng, "casts", gen.rand_cast(rng, 6000) + gen.underflow_boundary_casts(rng, 4000), 10 ** 9)
     # widening then narrowing is the identity (prog: lit, cast up, cast back; third register must equal the first)
     lines = []
     for _ in range(tiers(ctx, 3000, 50000)):
@@ -223,6 +233,7 @@ def c08(ctx):
     tr = gen.toi64_lines_real(rng, tiers(ctx, 20000, 300000))
     ctx.stream("toi64-real", tr, nontrivial=lambda t: t in ("frac", "big"))
     ctx.stream("toi64-dbg", tr[::4] + tl[::4], profile="dbg", nontrivial=lambda t: t in ("frac", "big"))
+    padded(ctx, rng, "toi64-and-loads", tr[:6000] + [l for l in il if l.startswith("frombig")], 10 ** 9, nontrivial=lambda t: t in ("frac", "big"))
     return done(ctx)
 
 
@@ -237,6 +248,7 @@ def c10(ctx):
     ctx.stream("scale-beyond-range", gen.scale_overflow_lines(rng, gen.SMALL_QUICK + gen.REAL))
     ctx.stream("scale-extreme-k", gen.scale_extreme_k_lines(rng, [(2, 2), (3, 3), (5, 11), (8, 24), (11, 53), (15, 64), (19, 237), (20, 70)]), nontrivial=lambda t: True)
     ctx.stream("trunc-round-real", gen.truncround_real(rng, tiers(ctx, 20000, 300000)))
+    padded(ctx, rng, "trunc-round-scale", gen.truncround_real(rng, 5000) + gen.scale_lines_real(rng, 5000), 10 ** 9)
     return done(ctx)
 
 
@@ -250,6 +262,7 @@ def c11(ctx):
     ctx.stream("exh-small", lines, exhaustive=True, chunk_timeout=600)
     ctx.stream("real", gen.rem_real(rng, tiers(ctx, 5000, 100000)), chunk_timeout=600, per_line_timeout=10)
     ctx.stream("minimum-exponent-multiword", gen.rem_min_exponent_lines(rng, tiers(ctx, 6000, 60000)), chunk_timeout=600, per_line_timeout=10)
+    padded(ctx, rng, "rem", gen.rem_real(rng, 3000) + gen.rem_min_exponent_lines(rng, 3000), 10 ** 9, chunk_timeout=600, per_line_timeout=10)
     return done(ctx)
 
 
@@ -349,7 +362,8 @@ def c13(ctx):
         words = rng.randrange(5800, 8191)
         e = min(s.emax, 64 * words - rng.randrange(1, 64))
         l3.append("disp %s %s" % (s, ftok("N", rng.randrange(2), e, rng.choice([2 ** (P - 1), 2 ** P - 1, gen.rand_mant(rng, P)]))))
-    for name, lines, exh in (("exh-small", l1, True), ("real-wide", l2, False), ("huge-integers", l3, False)):
+    l4 = gen.pad_lines(rng, gen.disp_lines_real(rng, 1500) + [l for l in l1 if ":N" in l or " N" in l][::7])
+    for name, lines, exh in (("exh-small", l1, True), ("real-wide", l2, False), ("huge-integers", l3, False), ("padded-significands", l4, False)):
         impl, _ = ctx.stream(name, lines, exhaustive=exh, nontrivial=lambda t: t in ("frac", "int"), chunk_timeout=900, per_line_timeout=60.0,
                              chunk_lines=2 if name == "huge-integers" else 500)
         for ln, im in zip(lines, impl):
@@ -553,6 +567,9 @@ def c19(ctx):
     ctx.stream("wide-exponent-core-release", wide, spec_mode="prog", nontrivial=lambda t: True)
     ctx.stream("wide-exponent-core-dbg", wide, spec_mode="prog", profile="dbg", nontrivial=lambda t: True)
     # (a chunk that is still running after chunk_timeout is killed and its unanswered lines are re-run one by one under per_line_timeout)
+    pl = gen.pad_lines(rng, lines[:: tiers(ctx, 6, 3)])
+    ctx.stream("padded-release", pl, spec_mode="total", nontrivial=lambda t: True, chunk_timeout=tiers(ctx, 240, 900), per_line_timeout=tiers(ctx, 5.0, 30.0))
+    ctx.stream("padded-dbg", pl, spec_mode="total", profile="dbg", nontrivial=lambda t: True, chunk_timeout=tiers(ctx, 480, 1800), per_line_timeout=tiers(ctx, 10.0, 60.0))
     ctx.stream("extremes-release", lines, spec_mode="total", nontrivial=lambda t: True, chunk_timeout=tiers(ctx, 240, 900), per_line_timeout=tmo)
     ctx.stream("extremes-dbg", lines, spec_mode="total", profile="dbg", nontrivial=lambda t: True, chunk_timeout=tiers(ctx, 480, 1800), per_line_timeout=tmo * 2)
     ctx.assumptions.append("stack exhaustion, allocation failure and wall-clock time are runtime behaviour the model cannot exhibit: they are observed by the supervised harness (ABORT/HANG attributed to single lines); the fuel/termination theorems cover the logic")
